@@ -77,6 +77,45 @@ func aliasWithin(r *RNG, v reflect.Value) {
 	}
 }
 
+// truncateSome re-slices some non-nil slices inside v to length 0 (capacity kept): an empty slice that
+// still owns a backing array
+func truncateSome(r *RNG, v reflect.Value, depth int) {
+	if depth > 4 {
+		return
+	}
+	switch v.Kind() {
+	case reflect.Struct:
+		if isTUStruct(v.Type()) {
+			return
+		}
+		for i := 0; i < v.NumField(); i++ {
+			if v.Field(i).CanSet() {
+				truncateSome(r, v.Field(i), depth+1)
+			}
+		}
+	case reflect.Ptr:
+		if !v.IsNil() {
+			truncateSome(r, v.Elem(), depth+1)
+		}
+	case reflect.Slice:
+		if !v.IsNil() && v.Cap() > 0 && v.CanSet() && r.Chance(25) {
+			v.Set(v.Slice(0, 0))
+		}
+	}
+}
+
+// valueForm hands a struct value over the way a source may: as a pointer, as the addressable struct
+// it points to, or as a plain (non-addressable) struct value
+func valueForm(r *RNG, p reflect.Value) reflect.Value {
+	switch r.Intn(3) {
+	case 0:
+		return p
+	case 1:
+		return p.Elem()
+	}
+	return reflect.ValueOf(p.Elem().Interface())
+}
+
 // history config: reference-typed fields at two levels
 type HInner struct {
 	Q *int
@@ -85,21 +124,22 @@ type HInner struct {
 }
 
 type HC struct {
-	P  *int
-	M  map[string]int
-	S  []int
-	N  *HInner
-	V  HInner
-	A  [2]*int
-	Z  int
+	P *int
+	M map[string]int
+	S []int
+	N *HInner
+	V HInner
+	A [2]*int
+	Z int
 }
 
 type hcSource struct {
-	idx   int
-	pool  *hcPool
-	wa    dials.WatchArgs
-	typ   *dials.Type
-	first reflect.Value
+	idx        int
+	pool       *hcPool
+	wa         dials.WatchArgs
+	typ        *dials.Type
+	firstGiven reflect.Value // first, in the form handed to dials
+	first      reflect.Value
 }
 
 // hcPool: memory the source keeps and reuses between reports
@@ -150,8 +190,8 @@ func (s *hcSource) build(r *RNG, t *dials.Type) reflect.Value {
 		setField("M", pm())
 	}
 	if r.Chance(50) {
-		nums := make([]int, 2, 6)
-		nums[0] = r.Intn(50)
+		nums := make([]int, r.Intn(3), 6)
+		nums[:1][0] = r.Intn(50)
 		if len(s.pool.nums) > 0 && r.Chance(50) {
 			nums = s.pool.nums[r.Intn(len(s.pool.nums))]
 		} else {
@@ -180,7 +220,7 @@ func (s *hcSource) build(r *RNG, t *dials.Type) reflect.Value {
 			q.Set(reflect.ValueOf(pi()))
 		}
 		if l := ie.FieldByName("L"); l.IsValid() && r.Chance(60) {
-			ls := []string{"a", "b", "c"}[:1+r.Intn(3)]
+			ls := []string{"a", "b", "c"}[:r.Intn(4)]
 			if len(s.pool.strs) > 0 && r.Chance(50) {
 				ls = s.pool.strs[r.Intn(len(s.pool.strs))]
 			} else {
@@ -197,7 +237,7 @@ func (s *hcSource) build(r *RNG, t *dials.Type) reflect.Value {
 }
 
 func (s *hcSource) Value(ctx context.Context, t *dials.Type) (reflect.Value, error) {
-	return s.first, nil
+	return s.firstGiven, nil
 }
 
 func (s *hcSource) Watch(ctx context.Context, t *dials.Type, wa dials.WatchArgs) error {
@@ -223,6 +263,7 @@ func checkC02(c *Ctx) {
 		def := reflect.New(T)
 		genBase(r, def.Elem(), 3)
 		aliasWithin(r, def.Elem())
+		truncateSome(r, def.Elem(), 0)
 		var PT reflect.Type
 		if pn := catch(func() { PT = ptrify.Pointerify(T, def.Elem()) }); pn != "" {
 			continue
@@ -233,7 +274,12 @@ func checkC02(c *Ctx) {
 			lv := reflect.New(PT)
 			genLayer(r, lv.Elem(), 30+r.Intn(60))
 			aliasWithin(r, lv.Elem())
+			truncateSome(r, lv.Elem(), 0)
 			layers[k] = lv
+		}
+		given := make([]reflect.Value, nl)
+		for k, l := range layers {
+			given[k] = valueForm(r, l)
 		}
 		defBefore := canonOf(def.Elem())
 		layBefore := make([]string, nl)
@@ -248,8 +294,8 @@ func checkC02(c *Ctx) {
 		var o1, o2 any
 		var e1, e2 error
 		if pn := catch(func() {
-			o1, e1 = dials.VerifCompose(def.Interface(), layers)
-			o2, e2 = dials.VerifCompose(def.Interface(), layers)
+			o1, e1 = dials.VerifCompose(def.Interface(), given)
+			o2, e2 = dials.VerifCompose(def.Interface(), given)
 		}); pn != "" || e1 != nil || e2 != nil {
 			res.Add(Finding{Kind: "violation", What: fmt.Sprintf("compose failed: %s %v %v", pn, e1, e2), Case: cs})
 			continue
@@ -308,6 +354,7 @@ func checkC02(c *Ctx) {
 				h.pool = &hcPool{} // own pool
 			}
 			h.first = h.build(r, typ)
+			h.firstGiven = valueForm(r, h.first)
 			hs[k], srcs[k] = h, h
 		}
 		ctx, cancel := context.WithCancel(context.Background())
@@ -366,7 +413,7 @@ func checkC02(c *Ctx) {
 			val := h.build(r, h.typ)
 			inputs = append(inputs, snap{val.Elem(), canonOf(val.Elem())})
 			trace = append(trace, fmt.Sprintf("src%d:%s", h.idx, canonOf(val.Elem())))
-			if err := h.wa.BlockingReportNewValue(ctx, val); err != nil {
+			if err := h.wa.BlockingReportNewValue(ctx, valueForm(r, val)); err != nil {
 				res.Add(Finding{Kind: "violation", What: "blocking report failed: " + err.Error(), Case: cs})
 				break
 			}
